@@ -44,6 +44,7 @@ class Sched:
         self.contended = 0
         self.in_op = {}              # tid -> True while inside a library operation (for probes)
         self.preempt_in_op = 0
+        self.ev = {}                 # tid -> seam events of the thread's current operation (semantic phase, see phase())
 
     # -- tracing --------------------------------------------------------------------------------------
     def _global_trace(self, frame, event, arg):
@@ -82,8 +83,25 @@ class Sched:
                 self.preempt_in_op += 1
             self._switch(me, nxt)
 
+    def note(self, kind):
+        """Seam callback: remember what the running thread's current operation has done at the I/O seams so far."""
+        me = self.cur
+        if me is not None and kind in ("open", "read", "write", "replace", "rename", "stat", "remove"):
+            self.ev.setdefault(me.tid, []).append("mv" if kind in ("replace", "rename") else kind)
+
+    def phase(self, me):
+        """Code-shape independent description of where thread `me` is inside its current operation: the file-system calls
+        it has made so far (open/read/write/mv/stat/remove) and the kinds of library locks it holds (F = a per-file lock,
+        B = a class-wide buffer lock, N = a lock created during the run).  Unlike a function name or line number this
+        survives refactorings (extract method, renames, added logging, line shifts, moving the JSON decoding)."""
+        def cat(l):
+            lab = l.label or ""
+            return "F" if ".file[" in lab else "B" if "_BUFFER_LOCK" in lab else "" if "_cls_lock" in lab else "N"
+        held = "".join(sorted({cat(l) for l in simlock.held_by(me.tid)}))
+        return ">".join(self.ev.get(me.tid, [])) + "|" + held
+
     def _switch(self, me, nxt):
-        self.switches.append((self.step, me.tid, nxt.tid, self.where))
+        self.switches.append((self.step, me.tid, nxt.tid, self.where, self.phase(me)))
         self.cur = nxt
         simlock.CUR[0] = nxt.tid
         nxt.sem.release()
